@@ -21,6 +21,7 @@ mod ops13;
 mod ops14;
 mod ops15;
 mod ops16;
+mod ops17;
 
 fn main() {
     std::panic::set_hook(Box::new(|_| {}));
